@@ -408,7 +408,16 @@ impl PropRun {
         self.assumptions.push(s.to_string());
     }
     pub fn add(&mut self, r: Report) {
+        self.add_q(r, false)
+    }
+    /// `quiet`: print the per-harness line only when something needs attention
+    pub fn add_q(&mut self, r: Report, quiet: bool) {
         let confirmed = r.candidates.iter().filter(|c| c.confirmed).count();
+        let notable = !r.candidates.is_empty() || !r.undecided.is_empty() || r.paths_cut > 0 || r.paths_unexplored > 0 || !r.native_mismatch.is_empty();
+        if quiet && !notable {
+            self.reports.push(r);
+            return;
+        }
         println!(
             "  [{}] paths={} (cut {}, infeasible {}, unexplored {}) decisions={} obligations={} discharged={} candidates={} confirmed={} undecided={} queries={} solver={:.1}s wall={:.1}s",
             r.harness,
@@ -550,10 +559,13 @@ impl PropRun {
         if samples.is_empty() {
             samples.push(jstr("no non-trivial obligation was generated"));
         }
+        let n_reports = self.reports.len();
         let harnesses: Vec<J> = self
             .reports
             .iter()
-            .map(|r| {
+            .enumerate()
+            .filter(|(i, r)| n_reports <= 60 || *i < 40 || !r.candidates.is_empty() || !r.undecided.is_empty())
+            .map(|(_, r)| {
                 let mut reached: Vec<_> = r.reached.iter().collect();
                 reached.sort();
                 jobj(vec![
@@ -613,6 +625,7 @@ impl PropRun {
             ("solver_queries".to_string(), J::Int(queries as i64)),
             ("solver_seconds".to_string(), J::Num((solver_s * 1000.0).round() / 1000.0)),
             ("solver_errors".to_string(), J::Int(solver_errors as i64)),
+            ("harnesses_run".to_string(), J::Int(n_reports as i64)),
             ("harnesses".to_string(), J::Arr(harnesses)),
             ("known_findings_reported".to_string(), J::Arr(known.iter().map(|(k, (w, n))| jobj(vec![("key", jstr(k)), ("what", jstr(w)), ("counterexamples", J::Int(*n as i64))])).collect())),
             ("violations".to_string(), J::Arr(viol_json)),
